@@ -115,35 +115,4 @@ def Coords.hashInput : Coords → List Tok
   | .separated a => a.flatten.map Tok.f64
   | .unstructured c => c.flatten.map Tok.f64
 
-/-! ## The code before the repair of D24: raw bytes depend on the dtype -/
-
-/-- a stored number with its NumPy dtype (`i64` or `f64`) -/
-structure Num where
-  val : Rat
-  isInt : Bool
-deriving DecidableEq, Repr
-
-inductive TokOld where
-  | f64 (x : Rat)
-  | i64 (x : Rat)
-deriving DecidableEq, Repr
-
-def Num.tokOld (n : Num) : TokOld := if n.isInt then .i64 n.val else .f64 n.val
-
-/-- a 1-axis-per-entry regular grid with dtype-tagged `delta`/`zero` (old code) -/
-structure RegAxisOld where
-  delta : Num
-  dim : Nat
-  zero : Num
-deriving DecidableEq, Repr
-
-/-- `np.array_equal` compares values, not dtypes -/
-def regEqOld (a b : List RegAxisOld) : Bool :=
-  arrEq (a.map (·.delta.val)) (b.map (·.delta.val)) && natArrEq (a.map (·.dim)) (b.map (·.dim)) &&
-    arrEq (a.map (·.zero.val)) (b.map (·.zero.val))
-
-/-- the old hash fed the raw buffers (`h.update(self.delta)` …) -/
-def regHashInputOld (a : List RegAxisOld) : List TokOld :=
-  a.map (·.delta.tokOld) ++ a.map (fun x => TokOld.i64 x.dim) ++ a.map (·.zero.tokOld)
-
 end HcipyVerif.Grid
